@@ -31,6 +31,10 @@ theorem processed_order_eq : processedOrder = ["orderedLargest", "insert", "ecn"
 theorem timer_arm_eq : timerArm = ("!self.ack_delay_timer.is_armed()", "now + self.ack_settings.max_ack_delay") := rfl
 theorem processed_poll_eq : processedPollActivates = true := rfl
 
+/-- `on_processed_packet` has no early exit: a packet whose insertion evicted the lowest range (it WAS stored) still
+    updates the transmission state, the activation rule and the ack-delay timer, as `onProcessedPacket` does -/
+theorem processed_packet_runs_to_the_end : processedEarlyExits = 0 := by decide
+
 /-- "process → insert": the only place that adds to an `ack_ranges` field is `on_processed_packet`, which the
     packet spaces call from `fn on_processed_packet`, which `handle_cleartext_payload` calls once, after
     the frame loop and the `frames == 0` check -/
